@@ -85,6 +85,13 @@ CHECKS = {
         text="Random histories of 3..30 steps (operations, clock advances from 1 s to 3 days, agent reboots) per security level; every operation must succeed with the database truth, the first datagram must be a well-formed discovery probe, the discovered engine id must be used, bad discovery replies refused, and the agent's notInTimeWindow verdicts never exceed the number of reboots. 'Eventually' is restated as bounded progress over generated histories.",
         ref="DESIGN.md 4/C12",
     ),
+    "C13": dict(
+        cat="fault_enumeration",
+        technique="runtime monitoring: virtual-time event loop with recording fake datagram endpoints (all outcome sequences enumerated) plus real loopback sockets with fd accounting",
+        text="send_udp runs on a real SelectorEventLoop whose selector advances a virtual clock; every sequence of per-attempt outcomes {reply, no reply, late reply, two replies, ICMP error, connection lost} for retries 1..4 x 3 timeouts (4 662 scenarios; thorough retries 1..5) plus caller cancellation is executed and the recorded transport events are judged (send count, identical payload, exact virtual timing, first reply returned byte for byte, Timeout at retries*timeout, every transport closed at quiescence). Real loopback cases (scripted peer, closed port => real ICMP) are judged on counts: peer datagrams, /proc/self/fd delta, ResourceWarnings.",
+        ref="DESIGN.md 4/C13",
+        note="Trusted base: vf/vloop.py models asyncio's selector datagram transport closing semantics (no delivery after close/abort, connection_lost via call_soon); the real-socket part checks the same leak on the real transport. CPython asyncio itself is trusted. Verdict = held on the executions observed.",
+    ),
     "C14": dict(
         cat="exploration",
         technique="runtime monitoring: controlled scheduler at the sender seam (requests parked, answered in enumerated/sampled orders), results compared with solo runs",
